@@ -19,12 +19,13 @@
 
     NOT YET PROVED: nothing of the plan of DESIGN section 4 is missing; the agreement of the
     two UTF-8 validity tests, formerly only tied together by the correspondence runs, is now
-    proved ([C20_utf8_ok_is_utf8]).  Outside the plan and not proved here: that the iterator-DSL front end of [string::from_iter!] yields the items
-    of the source in order (property C10/C11's subject; [items] is taken as given), and the
+    proved ([C20_utf8_ok_is_utf8]).  The iterator-DSL front end of [string::from_iter!] is now tied in as well
+    ([C20_from_iter_dsl_eq_std], with C10's theorem).  Outside the plan and not proved here: the
     behaviour when the total length does not fit [usize] (hypothesis [.. < 2 ^ w]). *)
 From KV Require Import Base.Prelude Model.Utf8 Model.Utf8Check Model.Concat Model.CStr
   Spec.Concat Proofs.ConcatProofs Proofs.Utf8CheckProofs Proofs.CStrProofs
   Proofs.Utf8EquivProofs.
+From KV Require Import Model.Dsl Spec.Dsl Proofs.FromIterDslProofs.
 
 (* ------------------------------------------------------------------ two-pass agreement *)
 
@@ -243,6 +244,22 @@ Theorem C20_until_nul_then_to_bytes : forall bytes c,
     to_bytes_with_nul_m c = Some c /\ to_bytes_m c = CDone pre.
 Proof. exact until_nul_then_to_bytes. Qed.
 
+(** [string::from_iter!] of an iterator-DSL chain, END TO END (with C10): the items the two const
+    evaluations push through the item closure are those of the chain's loop nest, which are the
+    items of the identical std chain — so the macro returns std's [collect::<String>] of that
+    chain, for every adapter list, all closures and every source outside C10's known-finding
+    class (no side condition at all for chains that do not reverse) *)
+Theorem C20_from_iter_dsl_eq_std : forall w ms src,
+  accepted ms CForEach = true -> no_rev_after_positional ms CForEach src ->
+  Forall elem_ok (std_items ms src) -> total_len (map elem_bytes (std_items ms src)) < 2 ^ w ->
+  from_iter_dsl w ms src = Done (flat (map elem_bytes (std_items ms src))).
+Proof. exact from_iter_dsl_eq_std. Qed.
+Theorem C20_from_iter_dsl_eq_std_forward : forall w ms src,
+  reverses ms CForEach = false ->
+  Forall elem_ok (std_items ms src) -> total_len (map elem_bytes (std_items ms src)) < 2 ^ w ->
+  from_iter_dsl w ms src = Done (flat (map elem_bytes (std_items ms src))).
+Proof. exact from_iter_dsl_eq_std_forward. Qed.
+
 Print Assumptions C20_len_utf8_agrees.
 Print Assumptions C20_concat_sum_lengths.
 Print Assumptions C20_concat_len_agrees.
@@ -278,3 +295,5 @@ Print Assumptions C20_to_bytes_with_nul_ub.
 Print Assumptions C20_to_bytes_roundtrip.
 Print Assumptions C20_to_str.
 Print Assumptions C20_until_nul_then_to_bytes.
+Print Assumptions C20_from_iter_dsl_eq_std.
+Print Assumptions C20_from_iter_dsl_eq_std_forward.
